@@ -684,6 +684,28 @@ func (w *c07world) stripMethodKeys(method string, buildAnn []string) ([]string, 
 	return keys, notes
 }
 
+// callNames lists the names of all calls in a function body in source order (method or function name only).
+func callNames(fd *ast.FuncDecl) []string {
+	var out []string
+	if fd == nil || fd.Body == nil {
+		return out
+	}
+	ast.Inspect(fd.Body, func(n ast.Node) bool {
+		c, ok := n.(*ast.CallExpr)
+		if !ok {
+			return true
+		}
+		switch f := c.Fun.(type) {
+		case *ast.SelectorExpr:
+			out = append(out, f.Sel.Name)
+		case *ast.Ident:
+			out = append(out, f.Name)
+		}
+		return true
+	})
+	return out
+}
+
 // ---------- printing ----------
 
 func coqStrList(l []string) string {
@@ -835,6 +857,25 @@ func init() {
 			}
 			fmt.Fprintf(&b, "(* api/internal/builtins/SortOrderTransformer.go: %s *)\nDefinition %s : list string := %s.\n\n", t.v, t.coq, coqStrList(l))
 		}
+		// order of the build tail
+		kp, err := w.load(filepath.Join(repo, "api/krusty"))
+		if err != nil {
+			return "", err
+		}
+		runFd, _ := findFunc(kp, "Kustomizer", "Run")
+		tp, err := w.load(filepath.Join(repo, "api/internal/target"))
+		if err != nil {
+			return "", err
+		}
+		mkFd, _ := findFunc(tp, "KustTarget", "makeCustomizedResMap")
+		ilFd, _ := findFunc(tp, "KustTarget", "IgnoreLocal")
+		if runFd == nil || mkFd == nil || ilFd == nil {
+			return "", fmt.Errorf("Kustomizer.Run / KustTarget.makeCustomizedResMap / KustTarget.IgnoreLocal not found")
+		}
+		fmt.Fprintf(&b, "(* calls, in source order, of Kustomizer.Run, KustTarget.makeCustomizedResMap and KustTarget.IgnoreLocal *)\n")
+		fmt.Fprintf(&b, "Definition gen_run_calls : list string := %s.\n", coqStrList(callNames(runFd)))
+		fmt.Fprintf(&b, "Definition gen_make_customized_calls : list string := %s.\n", coqStrList(callNames(mkFd)))
+		fmt.Fprintf(&b, "Definition gen_ignore_local_calls : list string := %s.\n\n", coqStrList(callNames(ilFd)))
 		bm, err := w.stringSliceVar(filepath.Join(repo, "api/types"), "BuildMetadataOptions")
 		if err != nil {
 			return "", err
